@@ -560,11 +560,12 @@ func (f *Field) applyOptions(opt FieldOptions) error {
 			f.options.CacheType = opt.CacheType
 		}
 		if opt.CacheSize != 0 {
-			if opt.CacheType == CacheTypeNone {
-				f.options.CacheSize = 0
-			} else {
-				f.options.CacheSize = opt.CacheSize
-			}
+			f.options.CacheSize = opt.CacheSize
+		}
+		// A field without a cache has no cache size, whether or not a size was
+		// given (otherwise the default size is kept until the next Open).
+		if f.options.CacheType == CacheTypeNone {
+			f.options.CacheSize = 0
 		}
 		f.options.Min = 0
 		f.options.Max = 0
